@@ -31,7 +31,7 @@ def switches_on_discr(prog, body, local, path=()):
         t = b.term
         if t.k != "switch" or t.discr.place is None:
             continue
-        for o in idx.resolve_place(t.discr.place, IDENT):
+        for o in prog.resolve_pl(body, t.discr.place, IDENT):
             if o.kind == "discr" and o.body is body:
                 pl = o.info.place
                 if pl.local == local and norm_path(pl) == tuple(path):
@@ -108,7 +108,7 @@ def match_gates(prog, body, pred, variant, level=OKFLOW):
         t = b.term
         if t.k != "switch" or t.discr.place is None:
             continue
-        for o in idx.resolve_place(t.discr.place, IDENT):
+        for o in prog.resolve_pl(body, t.discr.place, IDENT):
             if o.kind != "discr":
                 continue
             pl = o.info.place
@@ -133,7 +133,7 @@ def bool_gates(prog, body, pred, polarity):
         t = b.term
         if t.k != "switch" or t.discr.place is None or t.j.get("discr_ty") != "bool":
             continue
-        leaves = idx.resolve_place(t.discr.place, IDENT)
+        leaves = prog.resolve_pl(body, t.discr.place, IDENT)
         neg = False
         # peel Not
         cur = leaves
